@@ -73,8 +73,15 @@ func (p *ECPoint) UnmarshalJSON(b []byte) error {
 	if err := json.Unmarshal(b, &aux); err != nil {
 		return err
 	}
-	p.X = aux.X.Int
-	p.Y = aux.Y.Int
+	// MarshalJSON omits "y" for X25519 points, and either member may be
+	// absent or null in the input.
+	p.X, p.Y = nil, nil
+	if aux.X != nil {
+		p.X = aux.X.Int
+	}
+	if aux.Y != nil {
+		p.Y = aux.Y.Int
+	}
 	return nil
 }
 
